@@ -345,7 +345,10 @@ LEAN_VM = {
                                  'Theo.C06_initial_none', 'Theo.C06_enable_iff', 'Theo.C06_enabled_set']),
     'C17': (['Theo.Props.C17'], ['Theo.C17_end_absorbing', 'Theo.C17_reset_fresh', 'Theo.C17_reset_history']),
     'C19': (['Theo.Props.C19'], ['Theo.C19_frames_tile', 'Theo.C19_memory_is_live_frames']),
-    'C20': (['Theo.Props.C20'], ['Theo.C20_values_in_range', 'Theo.C20_sub_truncates', 'Theo.C20_add_saturates', 'Theo.C20_add_exact']),
+    'C20': (['Theo.Props.C20', 'Theo.Props.C20Guards'],
+            ['Theo.C20_values_in_range', 'Theo.C20_sub_truncates', 'Theo.C20_add_saturates', 'Theo.C20_add_exact',
+             'Theo.C20_guard_threshold', 'Theo.C20_literal_guard', 'Theo.C20_literal_exact', 'Theo.C20_number_node_guard',
+             'Theo.C20_priority_guard', 'Theo.C20_const_in_range']),
 }
 
 
@@ -376,6 +379,38 @@ def hypotheses_on_programs(ctx, cases):
             ctx.violation('hypothesis-' + bad.split(':')[0], 'a compiled program violates a hypothesis of the VM theorems: ' + bad, {'source': c['text']})
 
 
+def literal_guard_oracle(ctx):
+    """integer literals and priorities that do not fit the word are rejected at compile time"""
+    lits = ['0', '7', '2147483645', '2147483646', '2147483647', '2147483648', '4294967295', '4294967296', '4294967297',
+            '9223372036854775807', '9223372036854775808', '18446744073709551616', '99999999999999999999', '1' + '0' * 24]
+    for _ in range(ctx.n(10, 60)):
+        lits.append(str(ctx.rnd.choice([2 ** 31 - 1, 2 ** 32, 2 ** 63, 10 ** ctx.rnd.randint(1, 24)]) + ctx.rnd.randint(-3, 3)))
+    tmpl = ['x0 := %s\n', 'x0 := x1 + %s\n', 'x0 := x1 - %s\n', 'IF x0 = %s THEN GOTO m; m: x1 := 1\n',
+            'PROGRAM f IN a DO x0 := a END\nx1 := RUN f WITH %s END\n',
+            'DEFINE PRIO %s foo AS x0 := 1 END DEFINE\nfoo\n', 'DEFINE foo <ID> AS $%s := 1 END DEFINE\nfoo x\n']
+    cases = [(t % l, l, k) for l in lits for k, t in enumerate(tmpl)]
+    reqs = ['GEN ' + files_req(b'm', {b'm': c[0].encode()}) for c in cases]
+    a = impl(ctx, reqs)
+    b = model(ctx, reqs) if ctx.driver else [None] * len(reqs)
+    ctx.count('GEN', len(reqs))
+    for (src, lit, k), x, y in zip(cases, a, b):
+        ctx.cov['evaluations'] += 1
+        if is_crash(x):
+            ctx.violation('literal-ub', 'compiling a source with the literal %s crashed / hit undefined behaviour: %s' % (lit, x[:250]), {'source': src})
+            continue
+        ok = fields(x)['ok'] == '1'
+        v = int(lit)
+        # insertion index: must additionally name a slot (only $0 exists)
+        should_fail = v >= INT_MAX or (k == 6 and v != 0)
+        if ok == should_fail:
+            ctx.violation('literal-guard', 'literal %s in `%s`: %s, expected %s' % (lit, src.strip()[:60], 'accepted' if ok else 'rejected',
+                                                                                    'a range error' if should_fail else 'acceptance'), {'source': src})
+        if y is not None and not is_crash(y) and fields(y).get('ok') != fields(x).get('ok'):
+            ctx.stage_broken('GEN stage: verdict differs on a literal', 'impl %s model %s' % (fields(x).get('ok'), fields(y).get('ok')), {'source': src})
+        if v >= INT_MAX - 2:
+            ctx.nontrivial(src)
+
+
 def check_vm_property(ctx):
     pid = ctx.pid
     mods, thms = LEAN_VM[pid]
@@ -396,6 +431,7 @@ def check_vm_property(ctx):
                     jobs.append((c, ['s'] * 1200))
                     jobs.append((c, ['t1'] + ['e'] * 150))
     if pid == 'C20':
+        literal_guard_oracle(ctx)
         for src in ["x0 := 2147483646;\nx0 := x0 + 5\n", "x0 := 2147483646; x1 := x0 + 2147483646; x2 := x1 + 2147483646\n",
                     "x0 := 1073741824;\nLOOP x0 DO x0 := x0 + 1073741823; STOP END\n", "x0 := 3; x0 := x0 - 2147483646; x1 := x0 - 1\n",
                     "x1 := 2147483646;\nx0 := 31;\nLOOP x0 DO x2 := x2 + 2147483646; x2 := x2 + 2147483646 END\n"]:
